@@ -36,6 +36,15 @@ def syms():
 SYMS = syms()
 
 
+def trace_variant(desc, tier):
+    """With trace logging enabled: all ping lengths; the searches one level shallower, on fresh connections."""
+    if desc["part"] == "lengths":
+        return True
+    if desc.get("prelude"):
+        return False
+    return {"depth": desc["depth"] - 1}
+
+
 def tasks(tier, seed):
     ts = []
     dinc, dburst = (5, 4) if tier == "quick" else (7, 5)
